@@ -23,6 +23,39 @@ use vf_core::{fnv64, Args, Ctx, Digest, PanicPolicy, Rng};
 
 pub const REPLAY: Option<fn(&mut Ctx, &Args, &Value, Option<&[u8]>)> = Some(replay);
 
+// ---------------------------------------------------------------- panics
+
+/// Report a library panic (policy: any panic while validating, compiling or
+/// reading back a value violates C04). The signature is keyed on file, stage,
+/// class and message rather than on the line number, so that unrelated edits
+/// to the (largely generated) source files do not rename known findings.
+pub fn report_panic(ctx: &mut Ctx, p: &vf_core::PanicInfo, stage: &str, what: &str, detail: Value, bytes: Option<&[u8]>) {
+    if !p.in_repo() {
+        ctx.inconclusive(format!("harness panic {}:{} {}", p.file, p.line, p.msg));
+        return;
+    }
+    ctx.count(&format!("panic_class:{}", p.class.as_str()), 1);
+    let stage = match stage {
+        "dump" | "redump" => "write",
+        other => other,
+    };
+    let mut key = String::new();
+    for c in p.msg.chars() {
+        if c.is_ascii_alphanumeric() {
+            key.push(c);
+        } else if !key.ends_with('-') {
+            key.push('-');
+        }
+        if key.len() >= 56 {
+            break;
+        }
+    }
+    let key = key.trim_matches('-');
+    let sig = format!("panic:{}:{}:{}:{}", p.file, stage, p.class.as_str(), key);
+    let d = json!({"what": what, "panic": {"file": p.file, "line": p.line, "msg": p.msg, "class": p.class.as_str()}, "case": detail});
+    ctx.violation(&sig, d, bytes);
+}
+
 // ---------------------------------------------------------------- seeds
 
 pub struct Seed {
@@ -328,7 +361,7 @@ impl Run<'_> {
                 ctx.count(&format!("panic_stage:{}", stage), 1);
                 let mut d = detail(json!({"stage": stage}));
                 d["replay_json"] = j.clone();
-                ctx.judge_panic(&info, &format!("{} of a validated {}", stage, e.name), d, bytes.as_deref());
+                report_panic(ctx, &info, stage, &format!("{} of a validated {}", stage, e.name), d, bytes.as_deref());
             }
             Outcome::ReadError { bytes, err } => {
                 let tag = variant_tag(e, j);
@@ -685,9 +718,9 @@ pub fn run(ctx: &mut Ctx, args: &Args) {
     ctx.extra.insert("registered_types".into(), json!(entries.len()));
     ctx.extra.insert("donor_pool_keys".into(), json!(h.pools.keys()));
 
-    let seed_cap = ctx.tier.pick(48usize, 150);
-    let budget_nodes = ctx.tier.pick(1_000_000usize, 8_000_000);
-    let max_random = ctx.tier.pick(700usize, 5000);
+    let seed_cap = ctx.tier.pick(48usize, 200);
+    let budget_nodes = ctx.tier.pick(1_000_000usize, 16_000_000);
+    let max_random = ctx.tier.pick(700usize, 9000);
     let min_random = ctx.tier.pick(4usize, 16);
     let sweep_seeds = ctx.tier.pick(3usize, 10);
     let sweep_sites = ctx.tier.pick(100usize, 300);
